@@ -2,7 +2,7 @@
 TRUSTED = ("Trusted base: the instrumenter's rewrite preserves behaviour (the instrumented copy passes go-cty's own suite under ascending, descending and rotated map order); "
            "the checker's model/oracle code; the Go toolchain. Sampling, not proof: a clean batch is evidence only.")
 
-for p in ["C06","C10","C17","C19"]:
+for p in ["C06","C17","C19"]:
     PENDING[p] = "check under construction in this round (will be claimed; see DESIGN.md §5)"
 
 claim("C05",
@@ -24,3 +24,9 @@ claim("C03",
   "Seeded search over histories of 8..57 set operations (Add, Remove, Has, Copy and diverge, the four algebra operations, SetVal of a drawn multiset in two orders, wrap/unwrap between ValueSet and set value, HasElement, Length, stdlib set functions, re-adding in a shuffled order) over a collision-biased population (the same number at other precisions, strings in other spellings, nulls, refined unknowns, 15 element types) under every map-order policy. After every step the touched set is compared with a model set keyed by the checker's own canonical key; two sets with equal model contents must iterate in the same key order; the equivalence laws (RawEquals reflexive/symmetric/transitive, Equals symmetric, nulls equal, Equals agreeing with RawEquals and with the documented equality on wholly-known values, trichotomy on numbers, equal implies same hash) are checked on sampled pairs and triples of the population and of a mixed-type population. Exploration is the right level: the second half of the statement quantifies over histories of a mutable helper object and the failures need collisions between representations plus a particular insertion order.",
   TRUSTED + " The canonical key is computed with math/big and x/text only, never through go-cty.",
   "DESIGN.md §5 C03")
+
+claim("C10",
+  "deterministic simulation: the simulator plays the function author - seeded specifications with fault-injecting Type/Impl callbacks (error, panic, non-conforming, unknown, marked, null) and spies; the recorded callback history and the outcome are checked against a protocol model",
+  "Seeded search over function specifications x argument lists with the checker acting as the second party of the protocol: its Type and Impl callbacks record what they are given and fail in every way an author can (return an error, panic, return a value of the wrong type, an unknown, a marked value, a null). From the specification and the argument descriptions alone a protocol model derives the set of acceptable outcomes: which argument indices offend, whether the call must short-circuit and to which type, which marks the result must and may carry, exactly which (deeply unmarked) arguments each callback must see, that the implementation runs at most once and only after the type check accepted the same arguments, that callback failures come back as the same error or a PanicError, that a non-conforming result is never returned and that the declared refinement is on every typed unknown result. Exploration is the right level: the space is specifications x argument shapes and the historical defects were interactions between two argument kinds in the two passes.",
+  TRUSTED + " Conformance of an argument to a constraint is decided by the checker's own structural rule on the descriptions, not by go-cty.",
+  "DESIGN.md §5 C10")
